@@ -117,7 +117,9 @@ func setreqCmd(args []string) *rep.Result {
 		go func() {
 			defer wg.Done()
 			for j := range jobs {
-				runReq(j.e, j.pkg, &conc.Ctx{C: cp, V: cp.Variants[j.v], Seed: j.s}, j.mode, res)
+				safely(res, "setreq", &ReqCase{Sub: "setreq", Edge: j.e, Pkg: j.pkg.Name, Variant: j.v, Seed: j.s, Mode: j.mode}, func() {
+					runReq(j.e, j.pkg, &conc.Ctx{C: cp, V: cp.Variants[j.v], Seed: j.s}, j.mode, res)
+				})
 			}
 		}()
 	}
